@@ -1830,7 +1830,7 @@ namespace awkward {
       ContentPtr nextcontent = content_.get()->carry(nextcarry, false);
 
       ContentPtr outcontent = nextcontent.get()->sort_next(
-        negaxis - 1, nextstarts, nextparents, nextcontent.get()->length(),
+        negaxis - 1, nextstarts, nextparents, maxnextparents + 1,
         ascending, stable);
 
       Index64 outcarry(nextlen);
